@@ -98,6 +98,13 @@ impl CBORTaggedDecodable for Envelope {
                     #[cfg(feature = "compress")]
                     tags::TAG_COMPRESSED => {
                         let compressed = Compressed::from_untagged_cbor(item.clone())?;
+                        // Accept only the exact encoding of the compressed
+                        // element: a field of the wrong integer type (e.g. a
+                        // negative size) is converted silently by the
+                        // component decoder and would re-encode differently.
+                        if compressed.untagged_cbor() != *item {
+                            bail!("invalid compressed element")
+                        }
                         let envelope = Self::new_with_compressed(compressed)?;
                         Ok(envelope)
                     },
